@@ -16,10 +16,11 @@ def leaf_wire(x):
         return "t" + cps(x)
     if isinstance(x, bytes):
         return "b" + x.hex()
-    if isinstance(x, bool):
-        raise ValueError("bool not modelled")
-    if isinstance(x, int):
+    if isinstance(x, int) and not isinstance(x, bool):
         return "i%d" % x
+    if isinstance(x, (bool, float)) or type(x).__name__ == "Decimal":
+        # any other scalar is written as its str(): for the model it is that text
+        return "t" + cps(str(x))
     raise ValueError("leaf %r not modelled" % (x,))
 
 
@@ -99,11 +100,14 @@ def canon_model(line):
 # ---------------------------------------------------------------------------------------------
 
 DELIMS = "|\\^&\r"
+# framing controls and line separators are ordinary text for the record grammar (only | \\ ^ CR are special)
+CTRL = [2, 3, 0x17, 10, 11, 12, 0x1c, 0x1d, 0x1e]
 ALPHABETS = {
-    "latin-1": [chr(c) for c in list(range(0x20, 0x7f)) + list(range(0xa0, 0x100)) + [0, 1, 9, 0x7f, 0x80, 0x9f]],
-    "ascii": [chr(c) for c in list(range(0x20, 0x7f)) + [0, 1, 9, 0x7f]],
-    "utf-8": [chr(c) for c in list(range(0x20, 0x7f)) + [0xe9, 0x3b1, 0x416, 0x20ac, 0x4e2d, 0x1f600, 0x80, 0x7ff, 0x800, 0xffff]],
-    "cp1251": [chr(c) for c in list(range(0x20, 0x7f)) + list(range(0x410, 0x450)) + [0x401, 0x451, 0x20ac, 0xa0, 0xb5]],
+    "latin-1": [chr(c) for c in list(range(0x20, 0x7f)) + list(range(0xa0, 0x100)) + [0, 1, 9, 0x7f, 0x80, 0x9f] + CTRL + [0x85]],
+    "ascii": [chr(c) for c in list(range(0x20, 0x7f)) + [0, 1, 9, 0x7f] + CTRL],
+    "utf-8": [chr(c) for c in list(range(0x20, 0x7f)) + [0xe9, 0x3b1, 0x416, 0x20ac, 0x4e2d, 0x1f600, 0x80, 0x7ff, 0x800, 0xffff]
+              + CTRL + [0x85, 0x2028]],
+    "cp1251": [chr(c) for c in list(range(0x20, 0x7f)) + list(range(0x410, 0x450)) + [0x401, 0x451, 0x20ac, 0xa0, 0xb5] + CTRL],
 }
 
 
@@ -114,8 +118,6 @@ def text(rng, enc, n=None, allow_delims=False):
     while len(out) < n:
         c = rng.choice(alpha)
         if not allow_delims and c in DELIMS:
-            continue
-        if c in "\x02\x03\x17\n":
             continue
         out.append(c)
     return "".join(out)
@@ -150,6 +152,16 @@ def canonical_record(rng, enc, nfields=None):
 
 def canonical_records(rng, enc):
     return [canonical_record(rng, enc) for _ in range(rng.choice([1, 1, 2, 3]))]
+
+
+def no_framing(x):
+    """the same tree with the framing controls STX ETX ETB replaced (E1381 excludes them from frame text; chunk
+    classification looks for ETB)"""
+    if isinstance(x, str):
+        return x.replace("\x02", "x").replace("\x03", "y").replace("\x17", "z")
+    if isinstance(x, list):
+        return [no_framing(y) for y in x]
+    return x
 
 
 def is_rich(records):
